@@ -1087,6 +1087,7 @@ func TestVerifC32(t *testing.T) {
 	defer c.End()
 	// the explorer is serial; one P keeps the goroutine-exit spin of the node assembly reliable on a loaded machine
 	defer runtime.GOMAXPROCS(runtime.GOMAXPROCS(1))
+	defer c32e1Start(c)() // schedules half (c32e1_test.go): worker processes run alongside, collected before c.End
 	r := &c32Run{c: c, t: t, seed: c.Seed(), stats: c32NewStats()}
 	quick := !c.Thorough()
 
